@@ -1,8 +1,4 @@
 package gossipp
 
-import "qedverif/lib"
-
 // Workers are child-process entry points (qv worker <name> args...).
 var Workers = map[string]func(args []string) int{}
-
-func RunC19(c *lib.Ctx) { c.Inconclusive("C19: check not built yet") }
